@@ -118,6 +118,16 @@ def run(src, q):
         r.oreadable = oback.get_readable()
         r.oprops = [sx.zbool(oback.success), sx.zbool(oback.connection_error),
                     sx.zbool(oback.permission_error), sx.zbool(oback.undefined_error)]
+        # the auxiliary row of observations built by State.get_observation, for a no-op and for a
+        # failed action, partially and fully observable
+        r.aux_rows = []
+        for act in (m_act.NoOp(), m_act.ServiceScan(w.addrs[0], cost=1)):
+            for fo in (False, True):
+                res2 = m_act.ActionResult(flags[0], 0.0, connection_error=flags[1], permission_error=flags[2],
+                                          undefined_error=flags[3])
+                o2 = state.get_observation(act, res2, fo)
+                rows2 = dyn.tensor_rows(o2.tensor)
+                r.aux_rows.append(rows2[len(rows2) - 1])
         # masked host rows: each feature group of HostVector.observe() lands in its documented block
         hv0 = state.get_host(w.addrs[0])
         r.masked = {}
@@ -236,6 +246,10 @@ def obligations(r):
     b2i = lambda b: z3.If(b, 1, 0)
     obl.append(('aux_row_is_last_and_first_four_are_flags',
                 z3.And([aux[k] == b2i(r.flags[k]) for k in range(4)] + [aux[j] == 0 for j in range(4, L['size'])])))
+    for k_, aux2 in enumerate(r.aux_rows):
+        obl.append(('get_observation_aux_row_%d' % k_,
+                    z3.And([aux2[k] == b2i(r.flags[k]) for k in range(4)] + [aux2[j] == 0 for j in range(4, L['size'])])
+                    if len(aux2) == L['size'] else z3.BoolVal(False)))
     oflat_rows = [c for row in r.obs_rows for c in row]
     obl.append(('obs_flat_is_row_major', z3.And([_eq(x, y) for x, y in zip(r.oflat, oflat_rows)])
                 if len(r.oflat) == len(oflat_rows) else z3.BoolVal(False)))
